@@ -585,6 +585,98 @@ def decompose_case(T, Q):
     return R.Case(name, [k], judge)
 
 
+def axis_angle_case(T, Q):
+    """gtx/matrix_interpolation axisAngle() on an exact half turn R = 2 n n^T - I (|n| = 1), the case its symmetric-matrix branch exists for: on every
+    path of the branch (which component is largest) the returned axis is parallel to n and unit, the angle is pi.  The general (non-symmetric)
+    path: not decided (the decision tree of the symmetry / identity tests explodes; the exact half turn is what the branch exists for)."""
+    from rules import c04 as Q4
+    sc = G.scalar(T)
+    tg = sc.tag + ('' if Q == 'highp' else '_' + Q)
+    m4, v3 = G.mat(4, 4, T, Q), G.vec(3, T, Q)
+    ent = ' '.join('m[%d][%d] = %s(2) * n->%s * n->%s%s;' % (i, j, sc.cpp, 'xyz'[i], 'xyz'[j], (' - %s(1)' % sc.cpp) if i == j else '') for i in range(3) for j in range(3))
+    body = '{ typedef %s M; M m(1); %s %s ax; %s an; axisAngle(m, ax, an); *oa = ax; *og = an; }' % (m4.cpp, ent, v3.cpp, sc.cpp)
+    k = K('axisAngle_halfturn_%s' % tg, [Par('oa', v3, False), Par('og', sc, False), Par('n', v3)], body, CFG)
+    name = 'axisAngle(half turn about n)<%s>' % tg
+
+    def judge(ctx):
+        err = ctx.compile_error(k)
+        if err:
+            return [R.ob(name, 'existence', R.REFUTED, 'cannot be instantiated: ' + err, kernel=k.source())]
+        ax = L.out_lanes(ctx, k, v3, base='oa')
+        ang = L.out_lanes(ctx, k, sc, base='og')[0]
+        n = [L.in_atom('n', v3, i) for i in range(3)]
+        atoms = [list(x.t)[0][0] for x in n]
+        orient = []
+        for e in range(3):
+            repl = Poly.const(1) - sum((n[j] * n[j] for j in range(3) if j != e), Poly())
+            orient.append((atoms[e], repl))
+        norm = lambda x: P.reduce_ideal(x, orient[2][0], orient[2][1], deg=2)
+
+        def hook(kind, arg, pc):
+            if kind == 'fabs':
+                return None
+            for ea, repl in orient:
+                a2 = P.reduce_ideal(arg, ea, repl, deg=2)
+                if len(a2.t) == 1:
+                    (m, c), = a2.t.items()
+                    rc = P._isqrt_frac(Fraction(c)) if c > 0 else None
+                    if rc is not None and m and not any(m.count(x) % 2 for x in set(m)):
+                        root = Poly({tuple(sorted(x for x in set(m) for _ in range(m.count(x) // 2))): Fraction(1)})
+                        return Poly.atom(('fabs', ('P', root))).scale(rc)
+            return None
+
+        def evaluate(cx):
+            return tuple(cx.fpoly(ax[i]) for i in range(3)) + (cx.fpoly(ang),)
+        try:
+            leaves = P.decision_paths(lambda a_: P.NormCtx(a_, norm, hook), evaluate)
+        except P.TooManyPaths:
+            return [R.ob(name, 'axis_angle', R.UNDECIDED, 'too many decision paths')]
+        res = []
+        seen = set()
+        import math
+        for asg, infos, got, cx in leaves:
+            key = tuple(g.key() for g in got)
+            if key in seen:
+                continue
+            seen.add(key)
+            if all(g.is_const() for g in got[:3]):
+                continue            # the fallback axes for a vanishing largest component / the identity: not reachable for a unit n
+            bi = len(seen)
+            regime = ', '.join('%s %s %s' % (P.show_poly(infos[at][0], limit=2), '<' if v == 'lt' else '>', P.show_poly(infos[at][1], limit=2)) for at, v in asg.items() if at[0] == 'pair')[:300]
+            bad = []
+            diffs = []
+            for i, j in ((0, 1), (0, 2), (1, 2)):
+                d = got[i] * n[j] - got[j] * n[i]
+                if not any(Q4.zero_in_all_sign_cases(d, cx, lambda x, ea=ea, repl=repl: P.reduce_ideal(Q4.abs_square(x), ea, repl, deg=2)) for ea, repl in orient):
+                    bad.append('axis x n != 0 (component %d%d: %s)' % (i, j, P.show_poly(P.reduce_inv(d), limit=4)))
+                    diffs.append(d)
+            n2 = got[0] * got[0] + got[1] * got[1] + got[2] * got[2] - Poly.const(1)
+            if not any(Q4.zero_in_all_sign_cases(n2, cx, lambda x, ea=ea, repl=repl: P.reduce_ideal(Q4.abs_square(x), ea, repl, deg=2)) for ea, repl in orient):
+                bad.append('|axis|^2 - 1 = %s' % P.show_poly(P.reduce_inv(n2), limit=4))
+                diffs.append(n2)
+            okang = got[3].is_const() and abs(float(got[3].cval() if got[3].t else 0) - math.pi) < 1e-6
+            if not okang:
+                bad.append('angle = %s, not pi' % P.show_poly(got[3], limit=3))
+            status, wit = (R.PROVED, '') if not bad else (R.UNDECIDED, '')
+            if bad and diffs:
+                cons = [(v, infos[at][0] - infos[at][1]) for at, v in asg.items() if at[0] == 'pair']
+                for d in diffs[:2]:
+                    if not all(P.transparent(x) for x in [d] + [e_ for _, e_ in cons]):
+                        continue
+                    env = P.find_witness(cons[0][0], cons[0][1], [d], extra=cons[1:], spheres=(tuple(atoms),), tries=1500) if cons else P.find_witness('gt', Poly.const(1), [d], spheres=(tuple(atoms),), tries=800)
+                    if env is not None:
+                        status = R.REFUTED
+                        wit = ' -- e.g. for the half turn about n = (%s): axis = (%s)' % (', '.join(str(env[a_]) for a_ in atoms), ', '.join(str(P.eval_poly(g, env)) for g in got[:3]))
+                        break
+            res.append(R.ob('%s.branch%d' % (name, bi), 'axis_angle', status, ('axis is +-n (parallel, unit) and the angle is pi  [%s]' % regime) if not bad else '%s%s  [%s]' % ('; '.join(bad[:3]), wit, regime),
+                            where=R.where_of(ctx.fn(k), ax[0]) if status == R.REFUTED else None, kernel=k.source()))
+        if not res:
+            res.append(R.ob(name, 'axis_angle', R.UNDECIDED, 'no non-constant branch found'))
+        return res
+
+    return [R.Case(name, [k], judge)]
+
+
 def cases(tier):
     cs = []
     types = [('float', 'highp'), ('double', 'highp')]
@@ -593,6 +685,7 @@ def cases(tier):
     for T, Q in types:
         cs += type_cases(T, Q, tier)
         cs.append(decompose_case(T, Q))
+        cs += axis_angle_case(T, Q)
     cs += canaries()
     return cs
 
